@@ -366,8 +366,13 @@ func zeroTestEdge(info *types.Info, cond ast.Expr, v *types.Var) int {
 }
 
 func checkROReadDir(c *Ctx) {
+	f := c.P.Func("pkg/fuse.readOnlyFsInternal.ReadDir")
+	checkDirentWriteFlow(c, f, func(b *Body, w *ast.CallExpr) { checkReadDirResume(c, f, b, w) })
+}
+
+// checkDirentWriteFlow: the buffer protocol of a ReadDir implementation (shared by both mounts).
+func checkDirentWriteFlow(c *Ctx, f *FuncInfo, resume func(b *Body, w *ast.CallExpr)) {
 	p := c.P
-	f := p.Func("pkg/fuse.readOnlyFsInternal.ReadDir")
 	b := p.BodyOf(f)
 	info := f.Info()
 	writes := b.findCalls(callTo(writeDirentID), false)
@@ -464,8 +469,8 @@ func checkROReadDir(c *Ctx) {
 		c.check(dst == "param#1.Dst[param#1.BytesRead:]", "readdir.destination", callKey(f, w), p.Pos(w.Pos()),
 			"entries are written at op.Dst[op.BytesRead:]",
 			"entries are written at `"+dst+"` instead of op.Dst[op.BytesRead:]")
-		// the entry written: children[i] with i starting at offset, or the range variable over children[offset:]
-		checkReadDirResume(c, f, b, w)
+		// the entry written: which child, in which order
+		resume(b, w)
 	}
 }
 
